@@ -396,6 +396,11 @@ pub fn silence_panics() {
     }));
 }
 
+/// message @ location of the most recent panic on this thread
+pub fn last_panic() -> String {
+    LAST_PANIC.with(|p| p.borrow().clone())
+}
+
 /// ub_checks panics observed so far (drained)
 pub fn take_ub_check_panics() -> Vec<String> {
     UB_CHECK_PANICS.lock().map(|mut g| std::mem::take(&mut *g)).unwrap_or_default()
